@@ -148,6 +148,10 @@ class C16:
                 'hostile_strings': HOST}
 
     def cases(self, tier, seed):
+        yield from self.single_cases(tier)
+        yield from self.multi_cases(tier)
+
+    def single_cases(self, tier):
         for si, tex in enumerate(SOURCES):
             pos = positions(tex)
             for ci in range(len(CONTEXTS)):
@@ -156,10 +160,56 @@ class C16:
                     yield [si, [list(a)], ci]
                 for a, b in itertools.combinations_with_replacement(pos, 2):
                     yield [si, [list(a), list(b)], ci]
+            if False:
+                pass
             if len(tex) <= (7 if tier == 'quick' else 16):
                 for a, b, c in itertools.combinations(pos, 3):
                     for ci in ((1,) if tier == 'quick' else range(len(CONTEXTS))):
                         yield [si, [list(a), list(b), list(c)], ci]
+
+    def multi_cases(self, tier):
+        # a short file in front of a longer one (and the other way round), one match somewhere in the second file
+        for a, b in ((0, 2), (2, 0), (5, 2), (3, 1)):
+            pos = positions(SOURCES[b])
+            for ci in range(len(CONTEXTS)):
+                yield ['multi', a, b, [], ci]
+                for p in pos[::1 if tier != 'quick' else 2]:
+                    yield ['multi', a, b, [list(p)], ci]
+
+    def judge_multi(self, case):
+        """two files in one run: the report of each file must be what it is when the file is processed alone"""
+        _, a, b, ms, ci = case
+        ms = [tuple(m) for m in ms]
+        key = ('multi', a, b, ci)
+        if not hasattr(self, 'sessions'):
+            self.sessions = {}
+        d = os.path.join(core.scratch_dir(), 'hm%d_%d' % (a, b))
+        if key not in self.sessions:
+            os.makedirs(d, exist_ok=True)
+            for k, name in ((a, 'fa.tex'), (b, 'fb.tex')):
+                with open(os.path.join(d, name), 'w', newline='') as f:
+                    f.write(SOURCES[k])
+            self.sessions[key] = shell.Session(['--plain-input', '--output', 'html', '--context', str(CONTEXTS[ci]), 'fa.tex', 'fb.tex'],
+                                               lambda t, c: shell.lt_answer([]), cwd=d)
+        sess = self.sessions[key]
+        texs = [SOURCES[k] if SOURCES[k].endswith('\n') else SOURCES[k] + '\n' for k in (a, b)]
+        sess.answer = lambda t, c: shell.lt_answer([mk(i, t, o, l) for i, (o, l) in enumerate(ms)] if t == texs[1] and t != texs[0] else [])
+        out, err, code, exc = sess.report()
+        if code is not None or exc:
+            return {'viol': [{'clause': 'report is written', 'sig': 'C16:no-report:%s' % (exc or code),
+                              'detail': {'sources': texs, 'matches': ms, 'context': CONTEXTS[ci], 'stderr': err[-300:], 'exc': exc}}], 'out': 'none', 'nt': True, 'tr': 1}
+        pieces = out.split('<a id="')
+        viol = []
+        for name, tex, mm in (('fa.tex', texs[0], []), ('fb.tex', texs[1], ms)):
+            part = [x for x in pieces if x.startswith(name + '"></a>')]
+            if len(part) != 1:
+                viol.append({'clause': 'one report part per file', 'sig': 'C16:multi:parts', 'detail': {'report': out[:800]}})
+                continue
+            pr = judge_html('<a id="' + part[0], tex, mm, CONTEXTS[ci])
+            for k, dd in pr[:1]:
+                viol.append({'clause': 'the report of a file does not depend on the files processed before it',
+                             'sig': 'C16:multi:%s' % k, 'detail': {'file': name, 'sources': [t[:60] for t in texs], 'matches': mm, 'context': CONTEXTS[ci], 'problem': dd}})
+        return {'viol': viol, 'out': core.h64(out), 'nt': True, 'tr': 1}
 
     def session(self, si, ci):
         key = (si, ci)
@@ -175,6 +225,8 @@ class C16:
         return self.sessions[key]
 
     def judge(self, case):
+        if case[0] == 'multi':
+            return self.judge_multi(case)
         si, ms, ci = case
         tex = SOURCES[si]
         if not tex.endswith('\n'):
@@ -199,7 +251,7 @@ class C16:
 
     def conformance_picks(self, seed):
         k = 1499 + seed % 29
-        return [c for i, c in enumerate(self.cases('quick', seed)) if i % k == seed % k][:30]
+        return [c for i, c in enumerate(self.single_cases('quick')) if i % k == seed % k][:30]
 
     def finish(self, ctx):
         self.init_worker()
@@ -227,6 +279,8 @@ class C16:
         return 1, []
 
     def explain(self, case):
+        if case[0] == 'multi':
+            return 'files %r then %r\nmatches in the second file (offset, length) %r\ncontext %r' % (SOURCES[case[1]], SOURCES[case[2]], case[3], CONTEXTS[case[4]])
         return 'source %r\nmatches (offset, length) %r\ncontext %r' % (SOURCES[case[0]], case[1], CONTEXTS[case[2]])
 
 
